@@ -68,8 +68,19 @@
  *     X = E for list and vector, PR for map.
  *   ' ; end' is printed after the container and all handed-back objects were deleted without a
  *   sanitizer report (a corrupt structure usually faults there at the latest).
+ *
+ * FAULTS.  Cases run in a forked child.  When the child dies (sanitizer report, signal, 30 s
+ * watchdog per case) the parent completes the line of the case that was running with
+ * 'FAULT:<kind>' (kinds named as vlib.classify_crash names them), copies the head of the report to
+ * stderr and forks a new child for the remaining cases, so a tree in which thousands of histories
+ * crash is still checked in seconds and the run always exits 0 with one line per case.
  */
+#define main lv_common_main_unused      /* this harness brings its own crash-resilient main, see the end */
 #include "common.h"
+#undef main
+#include <signal.h>
+#include <sys/mman.h>
+#include <sys/wait.h>
 
 enum { IF_LIST, IF_VECTOR, IF_MAP };
 enum { CL_ARRAY, CL_LL, CL_DLL };
@@ -438,4 +449,103 @@ static void run_case(int ntok, char **tok)
     SPIF_OBJ_DEL(c);
     for (k = 0; k < npool; k++) { unreg(pool[k]); SPIF_OBJ_DEL(pool[k]); }
     printf("end");
+}
+
+/* ---- crash-resilient driver loop ---------------------------------------------------------------- */
+static struct progress { volatile long k; volatile long next_off; } *pg;
+
+static void child_loop(FILE *f, long k)
+{
+    char *line = NULL;
+    size_t cap = 0;
+    char *tok[LV_MAXTOK];
+
+    while (getline(&line, &cap, f) > 0) {
+        int n = lv_split(line, tok);
+        pg->k = k;
+        pg->next_off = ftell(f);
+        alarm(30);
+        printf("#%ld ", k);
+        fflush(stdout);
+        run_case(n, tok);
+        putchar('\n');
+        fflush(stdout);
+        k++;
+    }
+    alarm(0);
+    fflush(stdout);
+    _exit(0);
+}
+
+static void classify(const char *rep, int status, char *out, size_t n)
+{
+    const char *p;
+    if ((p = strstr(rep, "AddressSanitizer: "))) {
+        char kind[64];
+        size_t i = 0;
+        p += 18;
+        while (*p && *p != ' ' && *p != '\n' && i < sizeof(kind) - 1) kind[i++] = *p++;
+        kind[i] = 0;
+        if (!strcmp(kind, "heap-use-after-free")) snprintf(out, n, "FAULT:Use_after_free");
+        else if (!strcmp(kind, "SEGV")) snprintf(out, n, "FAULT:Null_deref:SEGV");
+        else if (!strcmp(kind, "attempting") || !strcmp(kind, "double-free") || !strcmp(kind, "bad-free")) snprintf(out, n, "FAULT:Bad_free:%s", kind);
+        else if (strstr(kind, "overflow") || strstr(kind, "underflow")) snprintf(out, n, "FAULT:%s:%s", strstr(rep, "WRITE of size") ? "OOB_write" : "OOB_read", kind);
+        else snprintf(out, n, "FAULT:asan:%s", kind);
+    } else if ((p = strstr(rep, "runtime error: "))) {
+        size_t i, l = strlen("FAULT:ubsan:");
+        snprintf(out, n, "FAULT:ubsan:");
+        p += 15;
+        for (i = 0; p[i] && p[i] != '\n' && i < 60 && l + i + 1 < n; i++) out[l + i] = (p[i] == ' ') ? '_' : p[i];
+        out[l + i] = 0;
+    } else if (WIFSIGNALED(status) && WTERMSIG(status) == SIGALRM) snprintf(out, n, "FAULT:Out_of_fuel:timeout");
+    else if (WIFSIGNALED(status)) snprintf(out, n, "FAULT:signal:%d", WTERMSIG(status));
+    else snprintf(out, n, "FAULT:exit:%d", WEXITSTATUS(status));
+}
+
+int main(int argc, char **argv)
+{
+    FILE *f;
+    char *line = NULL;
+    size_t cap = 0;
+    long k = 0, start = (argc > 2) ? atol(argv[2]) : 0, ncrash = 0;
+
+    if (argc < 2 || !(f = fopen(argv[1], "r"))) { fprintf(stderr, "usage: harness cases [start]\n"); return 2; }
+    setvbuf(stdout, NULL, _IOFBF, 1 << 16);
+    pg = (struct progress *) mmap(NULL, sizeof(*pg), PROT_READ | PROT_WRITE, MAP_SHARED | MAP_ANONYMOUS, -1, 0);
+    if (pg == MAP_FAILED) { perror("mmap"); return 2; }
+    while (k < start && getline(&line, &cap, f) > 0) k++;
+    pg->next_off = ftell(f);
+    for (;;) {
+        FILE *errf = tmpfile();
+        pid_t pid;
+        int status = 0;
+        char rep[4096], verdict[160];
+        size_t got;
+
+        fflush(stdout);
+        fflush(stderr);
+        fseek(f, pg->next_off, SEEK_SET);          /* also empties the stdio buffer the child would inherit */
+        pg->k = -1;
+        pid = fork();
+        if (pid < 0) { perror("fork"); return 2; }
+        if (pid == 0) {
+            if (errf) dup2(fileno(errf), 2);
+            child_loop(f, k);
+        }
+        while (waitpid(pid, &status, 0) < 0) { }
+        if (WIFEXITED(status) && WEXITSTATUS(status) == 0) { if (errf) fclose(errf); break; }
+        got = 0;
+        if (errf) { rewind(errf); got = fread(rep, 1, sizeof(rep) - 1, errf); fclose(errf); }
+        rep[got] = 0;
+        classify(rep, status, verdict, sizeof(verdict));
+        if (pg->k < 0) {                             /* died before reaching a case: nothing to resume from */
+            fprintf(stderr, "%s\nharness child died outside a case\n", rep);
+            return 3;
+        }
+        printf("%s\n", verdict);
+        if (++ncrash <= 20) fprintf(stderr, "--- case %ld: %s\n%.1500s\n", (long) pg->k, verdict, rep);
+        else fprintf(stderr, "--- case %ld: %s\n", (long) pg->k, verdict);
+        k = pg->k + 1;
+    }
+    return 0;
 }
